@@ -143,12 +143,118 @@ fn sub_long(input: &[u8], st: &mut Stats) -> R {
     }
 }
 
-pub const SUBS: &[Sub] = &[Sub { name: "sequences", f: sub_sequences }, Sub { name: "long-sequences", f: sub_long }];
+#[derive(Clone, Debug, Default)]
+struct Keyed32 {
+    key: u32,
+    payload: u32,
+}
+impl PartialEq for Keyed32 {
+    fn eq(&self, o: &Keyed32) -> bool {
+        self.key == o.key
+    }
+}
+
+/// `huge-sequences`: 65 530 - 140 000 plain appends (keys cycling with a period below, around or
+/// above 2^16, so that equal values lie up to more than 2^16 positions apart), then 60 - 200 mixed
+/// operations probing old, recent and fresh keys, then one lookup through every token. The statement
+/// has no size in it.
+fn sub_huge(input: &[u8], st: &mut Stats) -> R {
+    let mut cs = Cs::new(input);
+    let n0 = match cs.below(4) {
+        0 => 65_530 + cs.below(16),
+        1 => 131_066 + cs.below(12),
+        2 => 65_537 + cs.below(5_000),
+        _ => 66_000 + cs.below(74_000),
+    };
+    let period = match cs.below(5) {
+        0 => 250,
+        1 => 65_536,
+        2 => 65_535 + cs.below(3),
+        3 => 66_000 + cs.below(4_000),
+        _ => 1_000 + cs.below(64_000),
+    } as u32;
+    let mut s: Storage<Keyed32> = Storage::new();
+    let mut model: Vec<Keyed32> = Vec::with_capacity(n0 + 256);
+    let mut first_of: std::collections::HashMap<u32, usize> = Default::default();
+    let mut tokens: Vec<Token<Keyed32>> = Vec::with_capacity(n0 + 256);
+    let what = format!("{} appends of keys i mod {}", n0, period);
+    for i in 0..n0 {
+        let v = Keyed32 { key: i as u32 % period, payload: i as u32 };
+        let t = no_panic("Storage::append", || s.append(v.clone()))?;
+        if t.index() as usize != i {
+            return Err(Fail::new("dense-index", "huge", format!("append #{} returned index {}", i, t.index())).with_decoded(what));
+        }
+        first_of.entry(v.key).or_insert(i);
+        model.push(v);
+        tokens.push(t);
+    }
+    let mut log = vec![what];
+    let probes = 60 + cs.below(141);
+    let mut fetched_far = 0;
+    for step in 0..probes {
+        let key = match cs.below(8) {
+            0 => 0,
+            1 => cs.below(4) as u32,
+            2 => period - 1 - cs.below(3).min(period as usize - 1) as u32,
+            3 => (n0 as u32 - 1 - cs.below(4) as u32) % period,
+            4 => (65_535 + cs.below(3) as u32) % period,
+            5 => period + cs.below(4) as u32, // not stored by the bulk phase
+            6 => cs.below(period as usize) as u32,
+            _ => 1_000_000 + cs.below(3) as u32,
+        };
+        let v = Keyed32 { key, payload: (n0 + step) as u32 };
+        let fetch = cs.below(4) != 0;
+        let t = if fetch { no_panic("Storage::fetch_or_append", || s.fetch_or_append(v.clone()))? } else { no_panic("Storage::append", || s.append(v.clone()))? };
+        log.push(format!("{}(key {}) -> {}", if fetch { "fetch_or_append" } else { "append" }, key, t.index()));
+        let fail = |clause: &str, msg: String| Fail::new(clause, "huge".to_string(), msg).with_decoded(log.join("\n"));
+        match (fetch, first_of.get(&key).copied()) {
+            (true, Some(i)) => {
+                if t.index() as usize != i {
+                    return Err(fail("fetch-first-equal", format!("fetch_or_append returned token {} but the first equal stored value has index {} ({} values stored)", t.index(), i, model.len())));
+                }
+                if model.iter().skip(i + 65_536).any(|m| m.key == key) {
+                    fetched_far += 1;
+                }
+            }
+            _ => {
+                if t.index() as usize != model.len() {
+                    return Err(fail("dense-index", format!("appended value got index {} but {} values were stored before", t.index(), model.len())));
+                }
+                first_of.entry(key).or_insert(model.len());
+                model.push(v);
+                tokens.push(t);
+            }
+        }
+        for i in [0usize, 1, 65_534, 65_535, 65_536, 65_537, 131_071, 131_072, tokens.len() - 1] {
+            if let Some(tk) = tokens.get(i) {
+                let got = no_panic("Storage index", || s[*tk].clone())?;
+                if got.key != model[i].key || got.payload != model[i].payload {
+                    return Err(fail("stable-lookup", format!("lookup through token {} yields {:?}, appended value was {:?}", i, got, model[i])));
+                }
+            }
+        }
+    }
+    for (i, tk) in tokens.iter().enumerate() {
+        let got = no_panic("Storage index", || s[*tk].clone())?;
+        if tk.index() as usize != i || got.key != model[i].key || got.payload != model[i].payload {
+            return Err(Fail::new("stable-lookup", "huge", format!("lookup through token {} (index {}) yields {:?}, appended value was {:?}", i, tk.index(), got, model[i])).with_decoded(log.join("\n")));
+        }
+    }
+    st.count("huge_sequences");
+    if fetched_far > 0 {
+        st.count("huge_sequences_fetching_a_value_stored_again_2^16_later");
+        st.nontrivial(hash_str(&log.join(";")));
+    }
+    Ok(())
+}
+
+pub const SUBS: &[Sub] = &[Sub { name: "sequences", f: sub_sequences }, Sub { name: "long-sequences", f: sub_long }, Sub { name: "huge-sequences", f: sub_huge }];
 
 pub fn run(ctx: &Ctx) {
     run_regress(ctx, SUBS);
     drive_random(ctx, &SUBS[0], ctx.n(40_000, 20_000_000), 700);
     drive_random(ctx, &SUBS[1], ctx.n(1_000, 400_000), 12_000);
+    drive_random_costly(ctx, &SUBS[2], ctx.n(12, 3_000), 600);
 }
 
 pub fn finish(ctx: &Ctx) -> i32 {
